@@ -12,6 +12,18 @@ INT_TYPES = {"signed char": (8, 1), "short": (16, 1), "int": (32, 1), "long": (6
              "int32_t": (32, 1), "uint64_t": (64, 0), "size_t": (64, 0), "ssize_t": (64, 1), "intptr_t": (64, 1)}
 
 
+# Structural boundaries of CPython's numeric hash (reduction modulo the Mersenne prime 2^61 - 1, sign kept,
+# -1 mapped to -2): multiples of the modulus and their neighbours, powers of two around it, type limits.
+HASH_M = (1 << 61) - 1
+HASH_EDGES = sorted(set(
+    [s * (k * HASH_M + d) for k in range(1, 8) for d in (-1, 0, 1) for s in (1, -1)] +
+    [1 << 61, (1 << 61) + 1, (1 << 61) - 1, 1 << 62, (1 << 62) + 1, (1 << 63) - 1, -(1 << 63), (1 << 63), (1 << 64) - 1,
+     -(1 << 61), -(1 << 62), -1, -2, 0, 1, 2]))
+FLOAT_EDGES = [float(1 << 61), -float(1 << 61), float(1 << 62), float(1 << 63), -float(1 << 63), float(1 << 64),
+               2.0 ** 122, 2.0 ** 183, 2.0 ** 1023, -2.0 ** 1000, 1.5 * 2.0 ** 61, 2.0 ** -61, 2.0 ** -1074, 0.75,
+               -1.0, -2.0, 1.0, float(HASH_M + 1), 3.0 * 2.0 ** 60]
+
+
 def num(x):
     """exact description of an int / bool / float for the specification"""
     if isinstance(x, float):
@@ -119,6 +131,7 @@ class Pools:
         self.ffi = ffi = cffi.FFI()
         self.rng = rng
         ffi.cdef("struct s17 { int x; short y; char z[5]; }; enum e17 { E17A, E17B = 5, E17C = -3 };"
+                 "enum e17big { E17M = 2305843009213693951, E17N = -2305843009213693951 };"
                  "union u17 { int i; double d; };")
         self.arr = ffi.new("int[8]")
         self.arr2 = ffi.new("int[8]")
@@ -136,6 +149,9 @@ class Pools:
     def int_value(self, bits, signed):
         rng = self.rng
         lo, hi = (-(1 << (bits - 1)), (1 << (bits - 1)) - 1) if signed else (0, (1 << bits) - 1)
+        if rng.random() < 0.35:                      # the boundaries of Python's numeric hash that the type can hold
+            edges = [e for e in HASH_EDGES if lo <= e <= hi]
+            return rng.choice(edges)
         v = rng.choice([lo, hi, 0, 1, 2, hi - 1, rng.randint(lo, hi), rng.randint(-3, 3), rng.randint(0, 300),
                         1 << 53, (1 << 53) + 1, 1 << 62])
         return min(max(v, lo), hi)
@@ -157,6 +173,9 @@ class Pools:
             v = rng.randint(0, 1)
             return Obj(ffi.cast("_Bool", v), True, False, num(v), bool(v), "cast('_Bool', %d)" % v)
         if k < 0.55:
+            if rng.random() < 0.4:
+                v = rng.choice([e for e in HASH_EDGES if -(1 << 63) <= e < (1 << 63)])
+                return Obj(ffi.cast("enum e17big", v), True, False, num(v), v, "cast('enum e17big', %d)" % v)
             v = rng.choice([0, 5, -3, 1, 7])
             return Obj(ffi.cast("enum e17", v), True, False, num(v), v, "cast('enum e17', %d)" % v)
         if k < 0.72:
@@ -192,6 +211,8 @@ class Pools:
                 return float(near)
             except OverflowError:
                 return float("inf")
+        if rng.random() < 0.3:
+            return rng.choice(FLOAT_EDGES)
         return rng.choice([0.0, -0.0, 1.0, -1.0, 0.5, 1.5, 2.0, float("inf"), float("-inf"), float("nan"),
                            float(1 << 53), float(1 << 63), 1e300, 5e-324, rng.uniform(-10, 10),
                            float(rng.randint(-5, 300))])
@@ -216,6 +237,8 @@ class Pools:
             elif isinstance(near, str):
                 alts += [near + "y", ord(near) if len(near) == 1 else 0]
             v = rng.choice(alts)
+        elif k < 0.68:
+            v = rng.choice(HASH_EDGES + [8 * HASH_M, -9 * HASH_M, (1 << 122) - 1, HASH_M << 61])
         elif k < 0.75:
             v = rng.choice([0, 1, -1, 2, 255, 97, 1 << 53, (1 << 53) + 1, 1 << 63, (1 << 64) - 1, 1 << 70, -(1 << 63),
                             rng.randint(-300, 300)])
